@@ -561,6 +561,138 @@ fn fixed_cases() -> Vec<(&'static str, Mk, Vec<HOp>, Expect)> {
     v
 }
 
+// ---------------------------------------------------------------------------------------------------------
+// direct stream: `taffy::round_layout` on a user-defined RoundTree holding ARBITRARY unrounded layouts (values a layout
+// algorithm would rarely produce: neighbours of half pixels by one ulp, magnitudes where f32 has no fractional bits)
+
+struct RNode {
+    unrounded: Layout,
+    rounded: Layout,
+    children: Vec<usize>,
+}
+struct RTree {
+    nodes: Vec<RNode>,
+}
+impl taffy::TraversePartialTree for RTree {
+    type ChildIter<'a> = std::iter::Map<std::slice::Iter<'a, usize>, fn(&usize) -> NodeId>;
+    fn child_ids(&self, n: NodeId) -> Self::ChildIter<'_> {
+        self.nodes[usize::from(n)].children.iter().map(|c| NodeId::from(*c))
+    }
+    fn child_count(&self, n: NodeId) -> usize {
+        self.nodes[usize::from(n)].children.len()
+    }
+    fn get_child_id(&self, n: NodeId, i: usize) -> NodeId {
+        NodeId::from(self.nodes[usize::from(n)].children[i])
+    }
+}
+impl taffy::TraverseTree for RTree {}
+impl taffy::RoundTree for RTree {
+    fn get_unrounded_layout(&self, n: NodeId) -> &Layout {
+        &self.nodes[usize::from(n)].unrounded
+    }
+    fn set_final_layout(&mut self, n: NodeId, l: &Layout) {
+        self.nodes[usize::from(n)].rounded = *l;
+    }
+}
+
+fn adversarial(r: &mut Rng) -> f32 {
+    let below_half = f32::from_bits(0x3eff_ffff); // largest f32 < 0.5
+    let above_half = f32::from_bits(0x3f00_0001);
+    let v = match r.below(12) {
+        0 => below_half,
+        1 => above_half,
+        2 => 0.5,
+        3 => r.range(0, 40) as f32 + below_half,
+        4 => r.range(0, 40) as f32 + 0.5,
+        5 => 8_388_609.0,           // 2^23 + 1: no representable x + 0.5
+        6 => 8_388_607.5,           // 2^23 - 0.5
+        7 => 16_777_215.0,          // 2^24 - 1
+        8 => r.range(0, 4000) as f32 * 0.125,
+        9 => 0.0,
+        10 => f32::from_bits(0x3f7f_ffff), // largest f32 < 1
+        _ => r.range(0, 200) as f32 * 0.5,
+    };
+    if r.chance(1, 4) {
+        -v
+    } else {
+        v
+    }
+}
+
+fn gen_direct(r: &mut Rng, nodes: &mut Vec<RNode>, depth: usize, budget: &mut usize) -> usize {
+    let mut l = Layout::new();
+    l.order = r.below(4) as u32;
+    l.location = Point { x: adversarial(r), y: adversarial(r) };
+    l.size = Size { width: adversarial(r).abs(), height: adversarial(r).abs() };
+    l.content_size = Size { width: adversarial(r).abs(), height: adversarial(r).abs() };
+    l.scrollbar_size = Size { width: if r.chance(1, 4) { adversarial(r).abs() } else { 0.0 }, height: 0.0 };
+    let small = |r: &mut Rng| if r.chance(1, 2) { 0.0 } else { adversarial(r).abs().min(64.0) };
+    l.border = Rect { left: small(r), right: small(r), top: small(r), bottom: small(r) };
+    l.padding = Rect { left: small(r), right: small(r), top: small(r), bottom: small(r) };
+    l.margin = Rect { left: adversarial(r), right: 0.0, top: adversarial(r), bottom: 0.0 };
+    let me = nodes.len();
+    nodes.push(RNode { unrounded: l, rounded: Layout::new(), children: vec![] });
+    *budget = budget.saturating_sub(1);
+    if depth < 3 {
+        let k = r.below(3).min(*budget);
+        for _ in 0..k {
+            if *budget == 0 {
+                break;
+            }
+            let c = gen_direct(r, nodes, depth + 1, budget);
+            nodes[me].children.push(c);
+        }
+    }
+    me
+}
+
+fn ser_direct(t: &RTree, n: usize, s: &mut String, rounded: bool, with_counts: bool) {
+    if !s.is_empty() {
+        s.push(' ');
+    }
+    s.push_str(&lay_tokens(if rounded { &t.nodes[n].rounded } else { &t.nodes[n].unrounded }));
+    if with_counts {
+        s.push_str(&format!(" {}", t.nodes[n].children.len()));
+    }
+    for c in t.nodes[n].children.clone() {
+        ser_direct(t, c, s, rounded, with_counts);
+    }
+}
+
+fn run_direct(out: &mut Out, r: &mut Rng) {
+    let mut nodes = vec![];
+    let mut budget = 1 + r.below(6);
+    gen_direct(r, &mut nodes, 0, &mut budget);
+    let mut t = RTree { nodes };
+    taffy::round_layout(&mut t, NodeId::from(0usize));
+    let mut req = String::new();
+    ser_direct(&t, 0, &mut req, false, true);
+    let mut ans = String::new();
+    ser_direct(&t, 0, &mut ans, true, false);
+    out.qa(&format!("roundtree {req}"), &ans);
+    // implementation-side oracle on the root (cumulative offset 0, no ancestors): each rounded edge is the unrounded edge
+    // rounded half away from zero — evaluated in f64, where every f32 and its rounding are exact
+    {
+        let u = t.nodes[0].unrounded;
+        let f = t.nodes[0].rounded;
+        let rnd = |v: f32| (v as f64).round();
+        let checks = [
+            ("location.x", f.location.x as f64, rnd(u.location.x)),
+            ("location.y", f.location.y as f64, rnd(u.location.y)),
+            ("size.width", f.size.width as f64, rnd(u.location.x + u.size.width) - rnd(u.location.x)),
+            ("size.height", f.size.height as f64, rnd(u.location.y + u.size.height) - rnd(u.location.y)),
+        ];
+        for (name, got, want) in checks {
+            // f32 subtraction of two integers below 2^24 is exact; beyond that the difference itself is rounded: skip
+            if want.abs() < 16_777_216.0 && got != want && (u.location.x.abs() < 8_388_608.0 && u.location.y.abs() < 8_388_608.0 || name.starts_with("location")) {
+                out.impl_violation(format!("sig:c13-edge-not-rounded root {name}: got {got}, the unrounded edge rounds to {want} (unrounded location {:?} size {:?})", u.location, u.size));
+            }
+        }
+    }
+    out.count("op:direct-round_layout");
+    out.nontrivial();
+}
+
 pub fn run(cfg: &Cfg, out: &mut Out) -> String {
     let n = cfg.n(4000, 300_000);
     let mut idx = 0u64;
@@ -606,6 +738,15 @@ pub fn run(cfg: &Cfg, out: &mut Out) -> String {
                 eprintln!("available space {av:?} / other {av2:?}\nhistory {ops:?}");
             }
             run_history(out, &mut t, &root, &mut twin, &twin_root, av, av2, &ops);
+        }
+        idx += 1;
+    }
+    // direct stream on round_layout itself
+    for _ in 0..cfg.n(3000, 300_000) {
+        if cfg.wants(idx) {
+            let mut r = Rng::for_case(cfg.seed, idx);
+            out.begin_case(idx, "direct");
+            run_direct(out, &mut r);
         }
         idx += 1;
     }
